@@ -23,14 +23,13 @@ theorem decode_total (l : Layout) (data : List Nat) : ∃ o : Outcome (List Val)
 
 /-- If decoding succeeds and no completion code stopped it, encoding the decoded values
 gives back exactly the input bytes. -/
-theorem decode_strict (l : Layout) (data : List Nat) (vs : List Val) (hwf : l.wf = true)
+theorem decode_strict (l : Layout) (data : List Nat) (vs : List Val) (hwf : l.wfDecode = true)
     (hb : Bytes data) (h : decode l data = .ok vs) (hcc : hasCcStop l vs = false) :
     encode l vs = .ok data := by
-  unfold Layout.wf at hwf
-  simp only [Bool.and_eq_true] at hwf
+  unfold Layout.wfDecode at hwf
   unfold decode at h
   obtain ⟨st, hst, h⟩ := bind_eq_ok h
-  obtain ⟨h1, h2⟩ := strict_aux [] false [] l data st hwf.1 hb hst
+  obtain ⟨h1, h2⟩ := strict_aux [] [] l data st hwf hb hst
   by_cases hr : (!st.stopped && decide (st.rest.length > 0)) = true
   · simp [hr] at h
   · simp only [hr] at h
@@ -47,12 +46,11 @@ theorem decode_strict (l : Layout) (data : List Nat) (vs : List Val) (hwf : l.wf
     exact he2
 
 /-- Decoding either succeeds or fails with DecodingError — no other exception. -/
-theorem decode_error_kind (l : Layout) (data : List Nat) (hwf : l.wf = true) :
+theorem decode_error_kind (l : Layout) (data : List Nat) (hwf : l.wfDecode = true) :
     decode l data = .decodingError ∨ ∃ vs, decode l data = .ok vs := by
-  unfold Layout.wf at hwf
-  simp only [Bool.and_eq_true] at hwf
+  unfold Layout.wfDecode at hwf
   unfold decode
-  rcases decAux_kind [] false [] l data hwf.1 EnvOk.nil with h | ⟨st, h⟩
+  rcases decAux_kind [] [] l data hwf EnvOk.nil with h | ⟨st, h⟩
   · exact Or.inl (by simp [h, Outcome.bind])
   · simp only [h, Outcome.bind_ok]
     by_cases hr : (!st.stopped && decide (st.rest.length > 0)) = true
@@ -69,10 +67,12 @@ theorem cc_stops (nm : String) (d : Val) (rest : List Field) (c : Nat) (tail : L
   simp [decode, decAux, decField, decPrim, popN, isCcStop, h1, hc]
 
 /-- every response class with fields starts with the completion code (so `cc_stops` applies
-to all of them) and every class is well-formed -/
+to all of them) and every class is well-formed for decoding (`wfDecode`: references point
+to earlier plain fields, bit widths add up — weaker than C01's `wf`, which `wfDecode_of_wf`
+shows implies it) -/
 def registryOk (all : List MsgSpec) : Bool :=
   all.all fun m =>
-    !m.malformed && m.layout.wf &&
+    !m.malformed && m.layout.wfDecode &&
     (m.isReq || match m.layout with
       | [] => true
       | f :: _ => decide (f.wrap = .plain) && decide (f.prim = .cc))
@@ -103,7 +103,7 @@ def demoLayout : Layout := [
   ⟨"extra", .cond (.bitEq 1 0 1), .uint 2, .int 0⟩,
   ⟨"opt1", .optional, .uint 1, .none⟩]
 
-example : demoLayout.wf = true := by decide
+example : demoLayout.wfDecode = true := by decide
 example : decode demoLayout [0, 0xFF, 2, 7, 255, 0xEF, 0xBE] =
     .ok [.int 0, .bits [1, 3, 31], .int 2, .arr [7, 255], .int 0xBEEF, .none] := by decide
 example : decode demoLayout [0, 0xFF, 2, 7] = .decodingError := by decide
